@@ -58,21 +58,31 @@ TApplyRm == /\ l <= N /\ ok /\ l' = l /\ ok' = ok /\ Deviate("X05-replay-not-ato
             /\ UNCHANGED <<pos, restarted, rotl, hist>>
 
 Rest2 == UNCHANGED <<pos, restarted, rotl, hist>>
+(* the race variants guess which peer changes fell into the operation; a guess whose published change is handed to
+   no subscriber anywhere later in the execution is dropped at once (it would be rejected at the reports anyway) *)
+GotSet(f) == LET js == {j \in l..(Trace[l].nr - 1) : Trace[j].ev = "got"}
+             IN UNION {{Evt(Trace[j].evs[i].op, Trace[j].evs[i].oid, Trace[j].evs[i].np, Trace[j].evs[i].nid) :
+                          i \in {k \in 1..Len(Trace[j].evs) : Trace[j].evs[k].o = f}} : j \in js}
+NewSeen(f) == \A k \in (Len(log[f]) + 1)..Len(log'[f]) : log'[f][k] \in GotSet(f)
+(* the same for the plain variants, whose published change depends on which peer changes were applied before: only
+   when the execution has reports at all *)
+HasGot == \E j \in l..(Trace[l].nr - 1) : Trace[j].ev = "got"
+PlainSeen(f) == HasGot => NewSeen(f)
 TPut == /\ IsEvent("put") /\ Strict /\ Ev.res = "ok"
-        /\ \/ APut(Ev.f, Ev.p, Ev.id) /\ UNCHANGED <<applied, half>>
-           \/ \E g \in Filers : APutRace(Ev.f, g, Ev.p, Ev.id)
+        /\ \/ APut(Ev.f, Ev.p, Ev.id) /\ UNCHANGED <<applied, half>> /\ PlainSeen(Ev.f)
+           \/ \E g \in Filers : APutRace(Ev.f, g, Ev.p, Ev.id) /\ NewSeen(Ev.f)
         /\ Rest2
 TUpd == /\ IsEvent("upd") /\ Strict
-        /\ \/ AUpd(Ev.f, Ev.p, Ev.id, Ev.res) /\ UNCHANGED <<applied, half>>
-           \/ \E g \in Filers : AUpdRace(Ev.f, g, Ev.p, Ev.id, Ev.res)
+        /\ \/ AUpd(Ev.f, Ev.p, Ev.id, Ev.res) /\ UNCHANGED <<applied, half>> /\ PlainSeen(Ev.f)
+           \/ \E g \in Filers : AUpdRace(Ev.f, g, Ev.p, Ev.id, Ev.res) /\ NewSeen(Ev.f)
         /\ Rest2
 TDel == /\ IsEvent("del") /\ Strict
-        /\ \/ ADel(Ev.f, Ev.p, Ev.res) /\ UNCHANGED <<applied, half>>
-           \/ \E g \in Filers : ADelRace(Ev.f, g, Ev.p, Ev.res)
+        /\ \/ ADel(Ev.f, Ev.p, Ev.res) /\ UNCHANGED <<applied, half>> /\ PlainSeen(Ev.f)
+           \/ \E g \in Filers : ADelRace(Ev.f, g, Ev.p, Ev.res) /\ NewSeen(Ev.f)
         /\ Rest2
 TMv == /\ IsEvent("mv") /\ Strict
-       /\ \/ AMv(Ev.f, Ev.p, Ev.q, Ev.res) /\ UNCHANGED <<applied, half>>
-          \/ \E g \in Filers : AMvRace(Ev.f, g, Ev.p, Ev.q, Ev.res)
+       /\ \/ AMv(Ev.f, Ev.p, Ev.q, Ev.res) /\ UNCHANGED <<applied, half>> /\ PlainSeen(Ev.f)
+          \/ \E g \in Filers : AMvRace(Ev.f, g, Ev.p, Ev.q, Ev.res) /\ NewSeen(Ev.f)
        /\ Rest2
 TLook == (IsEvent("look") \/ IsEvent("await")) /\ Strict /\ ALook(Ev.f, Ev.p, Ev.id) /\ Same
 
@@ -120,7 +130,7 @@ TGot == /\ IsEvent("got")
                       /\ Complete(Pl, Ev.f, Ev.kind)
                       /\ pos' = SetPos(Ev.c, Pl)
                    \/ /\ Deviate("X05-agg-rotation-gap")
-                      /\ Ev.kind = "agg" /\ (Ev.f \in SeqRange(Ev.rot) \/ Ev.f \in rotl)
+                      /\ Ev.kind = "agg" /\ (Ev.f \in SeqRange(Ev.rot) \/ (Ev.f \in rotl /\ Ev.f \notin restarted))
                       /\ Genuine(Pa)
                       /\ pos' = SetPos(Ev.c, Pa)
                    \/ /\ Deviate("X05-segment-skip-loss")
